@@ -499,6 +499,7 @@ EvalExpr(f, e, k) ==
                       IN [m |-> v.mask[kk], v |-> v.vals[kk]]
     [] e.t = "int" -> [m |-> FALSE, v |-> RInt(e.v)]
     [] e.t = "asarr" -> EvalExpr(f, e.e, k)
+    [] e.t = "part" -> EvalExpr(f, e.e, k)      \* (never in the domain: ExprTotal)
     [] e.t = "bin" -> LET x == EvalExpr(f, e.l, k) y == EvalExpr(f, e.r, k)
                       IN IF x.m \/ y.m THEN [m |-> TRUE, v |-> RInt(0)]
                          ELSE LET c == ArithCell(e.op, x.v, y.v) IN [m |-> ~c.ok, v |-> c.v]
@@ -509,6 +510,7 @@ RECURSIVE ExprVars(_)
 ExprVars(e) == CASE e.t = "var" -> {e.k}
                  [] e.t = "int" -> {}
                  [] e.t = "asarr" -> ExprVars(e.e)
+                 [] e.t = "part" -> ExprVars(e.e)
                  [] e.t = "bin" -> ExprVars(e.l) \cup ExprVars(e.r)
                  [] e.t = "where" -> ExprVars(e.c) \cup ExprVars(e.x) \cup ExprVars(e.y)
 RECURSIVE ExprTotal(_)
@@ -520,6 +522,8 @@ ExprIsBool(e) == \/ (e.t = "bin" /\ e.op \in {"<", "<=", ">", ">=", "==", "!="})
 ExprTotal(e) == CASE e.t = "var" -> TRUE
                   [] e.t = "int" -> TRUE
                   [] e.t = "asarr" -> ExprTotal(e.e)
+                  \* a view of part of a variable (A[0], A[1:]): its value is not specified
+                  [] e.t = "part" -> FALSE
                   [] e.t = "bin" -> /\ e.op \in {"+", "-", "*", "<", "<=", ">", ">=", "==", "!="}
                                     /\ ExprTotal(e.l) /\ ExprTotal(e.r)
                                     \* numpy booleans are not numbers: no arithmetic on comparison results
@@ -590,6 +594,7 @@ ExprBound(e) ==
   CASE e.t = "var" -> 1000
     [] e.t = "int" -> AbsI(e.v)
     [] e.t = "asarr" -> ExprBound(e.e)
+    [] e.t = "part" -> ExprBound(e.e)
     [] e.t = "bin" -> LET x == ExprBound(e.l) y == ExprBound(e.r) IN
                       IF e.op \in {"+", "-"} THEN Sat(x + y)
                       ELSE IF e.op = "*" THEN (IF x > 30000 \/ y > 30000 THEN 1000000000 ELSE Sat(x * y))
@@ -607,6 +612,7 @@ ExprKind(f, e) ==
   CASE e.t = "var" -> IF VarRec(f, e.k).masked THEN "MV" ELSE "PV"
     [] e.t = "int" -> "S"
     [] e.t = "asarr" -> "NA"
+    [] e.t = "part" -> "PV"
     [] e.t = "where" -> "MA"
     [] e.t = "bin" -> LET ks == {ExprKind(f, e.l), ExprKind(f, e.r)} IN
                       IF "MV" \in ks THEN "MV" ELSE IF "PV" \in ks THEN "PV"
